@@ -186,10 +186,13 @@ impl BackendStub2 {
     { unimplemented!() }
 }
 pub struct MemHandler { pub backend: BackendStub2, pub atomic_mem: AtomicMemStub, pub mappings: Vec<AddrMapping> }
-// R6 target of `self.mappings.retain(|mapping| mapping.gpa_base != gpa)`
+// R6 target of `self.mappings.retain(|mapping| mapping.<field> != value)` (assumed: Vec::retain keeps exactly the elements
+// satisfying the predicate, in order)
+#[allow(non_camel_case_types)] pub enum AddrField { vmm_addr, size, gpa_base }
+pub open spec fn addr_field(m: AddrMapping, f: AddrField) -> u64 { match f { AddrField::vmm_addr => m.vmm_addr, AddrField::size => m.size, AddrField::gpa_base => m.gpa_base } }
 #[verifier::external_body]
-pub fn retain_not_gpa(v: &mut Vec<AddrMapping>, gpa: u64)
-    ensures final(v)@ == old(v)@.filter(|m: AddrMapping| m.gpa_base != gpa)
+pub fn retain_field_ne(v: &mut Vec<AddrMapping>, f: AddrField, val: u64)
+    ensures final(v)@ == old(v)@.filter(|m: AddrMapping| addr_field(m, f) != val)
 { unimplemented!() }
 
 
